@@ -190,6 +190,7 @@ func runC02(c *core.Ctx) {
 			c.Check(okB, "C02/mutation-marks-dirty", name, s.in.Pos(), "dirty = true accompanies the content store on every path returning the node", "in-place content change without marking the node dirty: "+whyB)
 		}
 	}
+	c02CanonicalShape(c)
 	c.Floor("C02/mutation-invalidates-hash", 3)
 	c.Floor("C02/mutation-marks-dirty", 3)
 	c.Floor("C02/content-store-classified", 20)
@@ -342,4 +343,134 @@ func isInsertedLeafParam(fn *ssa.Function, p *ssa.Parameter) bool {
 		return true
 	}
 	return len(fn.Name()) >= 6 && fn.Name()[:6] == "insert"
+}
+
+// c02CanonicalShape: two shape conditions the root hash depends on (equal contents must give the
+// same node structure): (a) the child handed to newExtensionNode is a branch node - two chained
+// extension nodes, or an extension over a leaf, encode the same keys as one fused node but hash
+// differently; (b) an extension node built from a sub-slice of a key (which may be empty) is
+// linked into the trie only behind a test that its key is not empty.
+func c02CanonicalShape(c *core.Ctx) {
+	const pkg = "data/trie"
+	childOK := map[string]string{
+		"extensionNode.insertInSameEn": "the child is the result of recv.child.insert: the child of an extension is a branch and branchNode.insert returns that branch",
+	}
+	n := 0
+	for _, fn := range c.P.FuncsOfPkg(pkg) {
+		for i, in := range callsMatching(fn, pkg, "", "newExtensionNode") {
+			n++
+			c.Sites++
+			call := in.(*ssa.Call)
+			name := fmt.Sprintf("%s/newExtensionNode#%d", fname(fn), i)
+			child := call.Call.Args[1]
+			// ---- (a)
+			okChild, why := false, ""
+			inner := core.Strip(child)
+			if nt := namedElem(inner.Type()); nt != nil && nt.Obj().Name() == "branchNode" {
+				okChild, why = true, "static type *branchNode"
+			}
+			if !okChild {
+				if _, f := core.FieldLoad(inner); f != nil && f.Name() == "child" {
+					okChild, why = true, "the existing child of an extension node (a branch, inductively)"
+				}
+			}
+			if !okChild {
+				// default arm of a type switch that excluded *leafNode and *extensionNode
+				excl := map[string]bool{}
+				for _, cd := range core.CondsAt(in.Block()) {
+					if ex, ok := cd.V.(*ssa.Extract); ok && ex.Index == 1 && !cd.Taken {
+						if ta, ok := ex.Tuple.(*ssa.TypeAssert); ok {
+							if nt := namedElem(ta.AssertedType); nt != nil {
+								// the switch is on the value handed over as child
+								if core.Strip(ta.X) == inner || ta.X == child {
+									excl[nt.Obj().Name()] = true
+								}
+							}
+						}
+					}
+				}
+				if excl["leafNode"] && excl["extensionNode"] {
+					okChild, why = true, "default arm of a type switch that excluded *leafNode and *extensionNode"
+				}
+			}
+			if !okChild {
+				// result of a package function all of whose success exits return a *branchNode
+				if ex, ok := inner.(*ssa.Extract); ok && ex.Index == 0 {
+					if cl, ok := ex.Tuple.(*ssa.Call); ok {
+						if g := cl.Call.StaticCallee(); g != nil && g.Blocks != nil {
+							all, any := true, false
+							for _, r := range core.Returns(g) {
+								if !core.SuccessReturn(r, nil) {
+									continue
+								}
+								any = true
+								if nt := namedElem(core.Strip(core.RetOperand(r, 0)).Type()); nt == nil || nt.Obj().Name() != "branchNode" {
+									all = false
+								}
+							}
+							if all && any {
+								okChild, why = true, "result of "+fname(g)+", which returns a *branchNode on every success exit"
+							}
+						}
+					}
+				}
+			}
+			if !okChild {
+				if r, ok := childOK[fname(fn)]; ok {
+					okChild, why = true, "tabled: "+r
+				}
+			}
+			c.Check(okChild, "C02/extension-child-is-branch", name, in.Pos(), why,
+				"the node handed to newExtensionNode as child is not known to be a branch node (an extension over an extension/leaf must be fused into one node): equal contents reached through this path hash differently")
+			// ---- (b)
+			key := call.Call.Args[0]
+			sl, isSlice := key.(*ssa.Slice)
+			if !isSlice || (sl.Low == nil && sl.High == nil) {
+				continue
+			}
+			res := core.ResultOf(call, 0)
+			if res == nil {
+				continue
+			}
+			resKeyLen := "len(" + core.ExprKey(res) + ".Key)"
+			for j, u := range *res.Referrers() {
+				linking := false
+				switch x := u.(type) {
+				case *ssa.MakeInterface:
+					for _, r2 := range *x.Referrers() {
+						switch r2.(type) {
+						case *ssa.Store, *ssa.Return:
+							linking = true
+						case *ssa.Call:
+							linking = true
+						}
+					}
+				case *ssa.Store, *ssa.Return:
+					linking = true
+				}
+				if !linking {
+					continue
+				}
+				guarded := false
+				for _, f := range core.FactsAt(u.Block()) {
+					if lb, ok := f.LowerBound(resKeyLen); ok && lb >= 1 {
+						guarded = true
+					}
+					if sl.Low == nil && sl.High != nil {
+						hk := core.ExprKey(sl.High)
+						if lb, ok := f.LowerBound(hk); ok && lb >= 1 {
+							guarded = true
+						}
+						if f.Op == "!=" && ((f.A == "0" && f.B == hk) || (f.B == "0" && f.A == hk)) {
+							guarded = true
+						}
+					}
+				}
+				c.Check(guarded, "C02/no-empty-key-extension", fmt.Sprintf("%s/link#%d", name, j), u.Pos(), "linked only when its key is known to be non-empty",
+					"an extension node whose key is the sub-slice "+core.ExprKey(key)+" (possibly empty) is linked into the trie without a test that the key is non-empty: an empty-key extension hashes differently from the same contents without it")
+			}
+		}
+	}
+	c.Floor("C02/extension-child-is-branch", 8)
+	c.Floor("C02/no-empty-key-extension", 3)
 }
